@@ -8,6 +8,7 @@ package main
 // except to fail the run when a rule has gone blind.
 
 import (
+	"encoding/json"
 	"bytes"
 	"fmt"
 	"io/fs"
@@ -33,6 +34,9 @@ type Canary struct {
 	Negative bool
 	// Edits lets a canary touch several places.
 	More []Edit
+	// Patch: instead of a text edit, a unified diff (path relative to the verification directory) applied to
+	// the scratch copy with `git apply` (the independently seeded changes under seeded/).
+	Patch string
 }
 
 type Edit struct{ File, Old, New string }
@@ -67,6 +71,8 @@ func copyTree(src, dst string) error {
 	})
 }
 
+var ruleNameRe = regexp.MustCompile(`[A-Z][A-Z0-9]*(?:-[A-Z0-9]+)+`)
+
 var violLine = regexp.MustCompile(`(?m)^(VIOLATED|UNDECIDED) (\S+) (.*?) at `)
 
 func runOneCanary(cn Canary, prop, repo, verif string) canaryResult {
@@ -85,6 +91,17 @@ func runOneCanary(cn Canary, prop, repo, verif string) canaryResult {
 		return res
 	}
 	edits := append([]Edit{{cn.File, cn.Old, cn.New}}, cn.More...)
+	if cn.Patch != "" {
+		edits = nil
+		ap := exec.Command("git", "apply", filepath.Join(verif, cn.Patch))
+		ap.Dir = work
+		// the scratch copy is not a repository, and must not be taken for part of one
+		ap.Env = append(os.Environ(), "GIT_CEILING_DIRECTORIES="+tmp)
+		if o, err := ap.CombinedOutput(); err != nil {
+			res.Outcome, res.Detail = "skipped", "the patch no longer applies: "+firstLine(string(o))
+			return res
+		}
+	}
 	for _, e := range edits {
 		p := filepath.Join(work, e.File)
 		b, err := os.ReadFile(p)
@@ -157,6 +174,7 @@ func runCanaries(c *Ctx, repo, verif string, seed int, extra map[string]any) {
 			}
 		}
 	}
+	mine = append(mine, seededCanaries(verif, c.Property)...)
 	if len(mine) == 0 {
 		return
 	}
@@ -203,4 +221,37 @@ func runCanaries(c *Ctx, repo, verif string, seed int, extra map[string]any) {
 	extra["canaries"] = results
 	extra["canaries_fired"] = nf
 	fmt.Printf("canaries: %d run, %d as expected\n", len(results), nf)
+}
+
+// seededCanaries: the independently produced breaking changes kept under seeded/ (DESIGN section 14), each
+// as a canary of the property it was written against: applied to a scratch copy, one of the rules recorded
+// as catching it must report.
+func seededCanaries(verif, prop string) []Canary {
+	metas, _ := filepath.Glob(filepath.Join(verif, "seeded", "*", "meta.json"))
+	sort.Strings(metas)
+	var out []Canary
+	for _, m := range metas {
+		b, err := os.ReadFile(m)
+		if err != nil {
+			continue
+		}
+		var meta struct {
+			Property string `json:"property"`
+			Name     string `json:"name"`
+			CaughtBy string `json:"caught_by"`
+		}
+		if json.Unmarshal(b, &meta) != nil || meta.Property != prop || meta.CaughtBy == "" {
+			continue
+		}
+		dir := filepath.Base(filepath.Dir(m))
+		if _, err := os.Stat(filepath.Join(verif, "seeded", dir, "patch.diff")); err != nil {
+			continue
+		}
+		rules := ruleNameRe.FindAllString(meta.CaughtBy, -1)
+		if len(rules) == 0 {
+			continue
+		}
+		out = append(out, Canary{Props: []string{prop}, Name: "seeded/" + dir, Rule: strings.Join(rules, "|"), Patch: filepath.Join("seeded", dir, "patch.diff")})
+	}
+	return out
 }
